@@ -47,6 +47,11 @@ type IOCase struct {
 	// seen to look up are ever set, and only to the two values every boolean parser reads
 	// as "off" (0, false): a plain invocation must behave as the property says under them.
 	Env map[string]string `json:"env,omitempty"`
+	// Fifo: the -input name is a named pipe (Stat: size 0, not a regular file).
+	Fifo bool `json:"fifo,omitempty"`
+	// DashDash: "--" stands between the flags and the expression, so the expression may
+	// begin with '-' (and may look like a flag).
+	DashDash bool `json:"dash_dash,omitempty"`
 }
 
 // lastEnvAsked: variable names the last simulated jpgo run looked up.
@@ -145,6 +150,9 @@ func (c *IOCase) argsFor(file string) []string {
 			a = append(a, "-input", file)
 		}
 	}
+	if c.DashDash {
+		a = append(a, "--")
+	}
 	return append(a, c.Expr)
 }
 
@@ -156,7 +164,7 @@ func runJpgo(c *IOCase) (res ioResult) {
 	files := map[string]*simio.FileSpec{}
 	var stdin simio.ReadPlan
 	if c.Channel == "file" {
-		files[c.FileName] = &simio.FileSpec{OpenFault: c.OpenFault, Plan: c.plan([]byte(c.Text))}
+		files[c.FileName] = &simio.FileSpec{OpenFault: c.OpenFault, Plan: c.plan([]byte(c.Text)), Fifo: c.Fifo}
 		stdin = simio.ReadPlan{Data: []byte(c.StdinNoise), Chunk: "all", FailAfter: -1}
 	} else {
 		stdin = c.plan([]byte(c.Text))
@@ -369,6 +377,12 @@ func (c *IOCase) describe() string {
 	if c.StdoutFailAfter >= 0 {
 		s += fmt.Sprintf(" stdout_fails_after=%d", c.StdoutFailAfter)
 	}
+	if c.Fifo {
+		s += " input_is_fifo"
+	}
+	if c.DashDash {
+		s += " dash_dash"
+	}
 	if len(c.Env) > 0 {
 		var ks []string
 		for k := range c.Env {
@@ -573,7 +587,7 @@ func baseCase(r *gen.Rng, expr, text string) IOCase {
 	c := IOCase{Expr: expr, Text: text, Channel: "stdin", Chunk: "all", FailAfter: -1, StdoutFailAfter: -1}
 	if r.Chance(1, 2) {
 		c.Channel = "file"
-		c.FileName = r.Pick([]string{"/tmp/data.json", "data.json", "./in put.json", "/nonexistent/dir/x", "-", "--", "-input", "stdin", "/dev/stdin", "é.json"})
+		c.FileName = r.Pick([]string{"/tmp/data.json", "data.json", "./in put.json", "/nonexistent/dir/x", "-", "--", "-input", "stdin", "/dev/stdin", "é.json", "-h", "--help", "-help", "-ast", "--ast=false", "-v", "--version"})
 		if strings.HasPrefix(c.FileName, "-") {
 			c.StdinNoise = r.Pick([]string{"{\"other\":1}", "[]", "garbage", ""})
 		}
@@ -630,6 +644,20 @@ func plansFor(r *gen.Rng, expr, text string, full bool) []IOCase {
 		o.Channel = "stdin"
 	}
 	out = append(out, withChunk(o, r, r.Intn(5)))
+	// -input names a pipe: nothing to learn from Stat, the data arrives in pieces
+	fi := withChunk(o, r, 1+r.Intn(4))
+	fi.Channel, fi.Fifo = "file", true
+	if fi.FileName == "" {
+		fi.FileName, fi.InputFlag = r.Pick([]string{"/tmp/fifo", "/dev/stdin", "/dev/fd/63", "/proc/self/fd/0"}), "-input"
+	}
+	out = append(out, fi)
+	// "--" before the expression; one time in three the expression looks like a flag
+	dd := withChunk(b, r, r.Intn(5))
+	dd.DashDash = true
+	if r.Chance(1, 3) {
+		dd.Expr = r.Pick([]string{"-h", "--help", "-help", "-ast", "-input", "-1", "--", "-", "-x.y"})
+	}
+	out = append(out, dd)
 	// hard read faults
 	var pos []int
 	if full && L <= 64 {
@@ -780,7 +808,7 @@ func ioWorker(tier string, master uint64, from, to int, maxWall time.Duration, r
 				st.Samples = append(st.Samples, map[string]interface{}{"case": c.describe(), "violations": len(rep.Violations)})
 			}
 			// stub cross-check against the real binary (fault-free cases only)
-			if jpgoBin != "" && stage == "xcheck" && c.FailAfter < 0 && c.OpenFault == "" && c.StdoutFailAfter < 0 && len(c.Text) < 70000 && xmismatch == "" {
+			if jpgoBin != "" && stage == "xcheck" && !c.Fifo && c.FailAfter < 0 && c.OpenFault == "" && c.StdoutFailAfter < 0 && len(c.Text) < 70000 && xmismatch == "" {
 				if m := crossCheck(jpgoBin, c, replayDir); m != "" {
 					xmismatch = m
 				}
